@@ -191,11 +191,13 @@ def build_records(pa, rng, tier, rep):
             meta={"kind": "Levenshtein"})
     # --- combined
     combos = [(a, b, de, same) for a in (0, 1, 3) for b in (0, 1, 3) for de in des for same in (True, False)]
+    kinds5 = ["abs_default", "abs", "pre", "ord", "lev"]
     if quick:
-        combos = rng.sample(combos, 14)
-    for a, b, de, same in combos:
+        # every component kind with the same and with another delta_empty at least once, alpha/beta/delta_empty at random
+        combos = [(rng.choice([0, 1, 3]), rng.choice([1, 3]), rng.choice(des), same) for same in (True, False) for _ in kinds5] + rng.sample(combos, 6)
+    for ci, (a, b, de, same) in enumerate(combos):
         cde = de if same else rng.choice([x for x in des if x != de])
-        kind = rng.choice(["abs_default", "abs", "pre", "ord", "lev"])
+        kind = kinds5[ci % 5] if ci < 10 else rng.choice(kinds5)
         if kind == "abs_default":
             d = pa.CombinedCategoricalDissimilarity(alpha=a, beta=b, delta_empty=de)
             add("comb", "abs", d, grid_pairs(names3 + [None], sample=120, floats=4), de, a, b, rank=rank3,
